@@ -109,12 +109,15 @@ Definition m3_init : m3_hasher :=
 Definition copy_into (dst : bytes) (off : nat) (src : bytes) : bytes :=
   firstn off dst ++ src ++ skipn (off + length src) dst.
 
+(* `l.len() >= n`, computed without walking the whole list (lemma len_ge_spec) *)
+Definition len_ge {A} (l : list A) (n : nat) : bool := (length (firstn n l) =? n)%nat.
+
 (* `while pk_part.len() >= 16 { fetch 16 bytes; hash_16_bytes }`; fuel = pk_part.len() *)
 Fixpoint second_phase (fuel : nat) (pk : bytes) (h : Z * Z) : bytes * (Z * Z) :=
   match fuel with
   | O => (pk, h)
   | S f =>
-      if (16 <=? length pk)%nat then
+      if len_ge pk 16 then
         let '((k1, k2), pk') := fetch_16_bytes_from_buf pk in
         second_phase f pk' (hash_16_bytes h k1 k2)
       else (pk, h)
